@@ -24,6 +24,8 @@ pub const TOKENS: &[&str] = &[
     ":a", "a:", ":a:", "::", ":", "#:a", "#:", ":1", "1:", "#:1", "λ:", ":λ", "λ-1:", "$x:", "+:", "-:", ":+", "a-b:", ":a-b", "#:a-b", "a:b", "a::", "::a", "#:a:", "#::a", "A:", "%:", "?:", ":?",
     // dot-initial names and postfix keywords (the list parsers scan dot-initial tokens themselves)
     ".a:", "..:", ".:", "...:", ".a", ":.a", "#:.a", ".1:", "-.a:", "+.:", ".a.b:", "..a", ".λ:", ".λ",
+    // unquote, trivia, @-initial symbol
+    ", @a", ",\n@a", ", @", ",@ a", ",@a", ", a",
     // nil / t
     "nil", "nil:", ":nil", "#:nil", "nilx", "xnil", "NIL", "Nil", "#nil", "#nilx", "nil.", "t", "tt", "T", "t:", ":t", "#t", "#f", "#t1", "#tx", "#true", "#false", "#f0", "t.", "-t", "ni", "nill",
     // chars
